@@ -356,4 +356,208 @@ Proof.
         unfold hasrun in Hh1. rewrite Hd in Hh1. auto.
 Qed.
 
+(* ---------------------------------------------------------------- one iteration of the task loop *)
+(* what must hold of the polled effect whenever its loop is at rest between two iterations *)
+Definition IterPost (s : state) (e : nat) : Prop :=
+  (hasrun s e = false -> edirty (getn s e) = true) /\
+  (edirty (getn s e) = false -> eflag (getn s e) = false -> emissed (getn s e) = false ->
+   hasrun s e = true -> Lclean s e).
+
+Lemma hasrun_first e k b h s : decl_of p e = DEff k b h -> k <> ERender ->
+  hasrun s e = negb (efirst (getn s e)).
+Proof. intros Hd Hk. unfold hasrun, hasrun_n. rewrite Hd. destruct k; congruence. Qed.
+
+(* the effect has just run (or was found unchanged): close the exemption *)
+Lemma close_after_run e s :
+  InvBut e [] 0 s -> effb e = true ->
+  ealive (getn s e) = true -> epoll (getn s e) = true ->
+  edirty (getn s e) = false -> (hasrun s e = true -> Lcur s e) ->
+  Inv0 s.
+Proof.
+  intros I He Ha Hp Hd Hc. destruct (effb_decl p e He) as (k & b & h & Hde).
+  apply (InvBut_close e s I).
+  - split; [apply (ib_l1 _ _ _ _ _ I); intros []|].
+    unfold uncached_ok, GraphInvariant.needs_cur, GraphInvariant.needs_clean,
+      GraphInvariant.will_run, needs_cur_n, needs_clean_n, will_run_n. rewrite Hde.
+    split; auto. split; [|split].
+    + intros (_ & Hh & _). apply Hc. unfold hasrun. rewrite Hde. exact Hh.
+    + intros (_&_&_&_&_&Hpf). congruence.
+    + intros (_&_&Hdt). congruence.
+  - unfold GraphInvariant.queue_ok, queue_ok_n. rewrite Hde. intros _.
+    split; [congruence|]. intros Hpf. congruence.
+Qed.
+
+(* a run of the body from an exempted state with the dirty flag down *)
+Lemma eff_run_spec first e body s :
+  InvBut e [] 0 s -> effb e = true -> expr_ok p e false body ->
+  ealive (getn s e) = true -> epoll (getn s e) = true -> edirty (getn s e) = false ->
+  (first = true \/ since (getn s e) <> []) ->
+  let s' := eff_run p first e body s in
+  Inv0 s' /\ Lcur s' e /\ Lclean s' e /\ edirty (getn s' e) = false /\ eff_static s s' /\
+  efirst (getn s' e) = efirst (getn s e).
+Proof.
+  intros I He Hok Ha Hp Hd Hcause. cbv zeta. unfold eff_run.
+  destruct (eval p (read_any p) true (Some e, true) body (begin_run first e (clear_sources e s))) as [s1 v] eqn:Ev.
+  destruct (effb_decl p e He) as (k & b & h & Hde).
+  assert (Hq : queue_ok s e).
+  { unfold GraphInvariant.queue_ok, queue_ok_n. rewrite Hde. intros _.
+    split; [congruence|]. intros Hpf. congruence. }
+  destruct (eff_body_spec first e body s s1 v I Hq He Hok Hd Hcause Ev) as (I1 & P1 & Hc1 & Hcl1 & Hd1 & _).
+  split; [apply Inv_emit; auto|]. split; auto. split; auto. split; auto. split.
+  - eapply eff_static_trans; [eapply PullRel_static; exact P1|apply emit_static].
+  - rewrite getn_emit. destruct (pr_eff _ _ _ _ _ _ P1 e) as (->&_). reflexivity.
+Qed.
+
+Lemma static_alive s s' e : eff_static s s' -> ealive (getn s' e) = ealive (getn s e).
+Proof. intros [H _]. destruct (H e) as (_&->&_). reflexivity. Qed.
+Lemma static_epoll s s' e : eff_static s s' -> epoll (getn s' e) = epoll (getn s e).
+Proof. intros [H _]. destruct (H e) as (_&_&_&->). reflexivity. Qed.
+
+Lemma eff_iter_spec e k b h s :
+  pure_effects -> decl_of p e = DEff k b h ->
+  Inv0 s -> ealive (getn s e) = true -> epoll (getn s e) = true -> IterPost s e ->
+  let s' := eff_iter p (eff_check p) e (updn e (fun n => set_eflag n false) s) in
+  Inv0 s' /\ IterPost s' e /\ eff_static s s'.
+Proof.
+  intros Hpure Hde I Ha Hp [IP1 IP2]. cbv zeta.
+  assert (He : effb e = true) by (unfold GraphInvariant.effb; rewrite Hde; auto).
+  destruct (Hpure e k b h Hde) as (Hokb & Hokh).
+  assert (Hel : e < length p) by (apply effb_lt; auto).
+  assert (Hei : e < nlen s) by (rewrite (wf_len p s (inv_wf _ _ _ _ I)); auto).
+  destruct (inv_rest _ _ _ _ I e (fun x => x)) as (R1 & R2 & R3 & R4 & R5).
+  set (sa := updn e (fun n => set_eflag n false) s).
+  assert (Ea : getn sa e = set_eflag (getn s e) false) by (apply getn_updn_same; auto).
+  assert (IBa : InvBut e [] 0 sa).
+  { apply InvBut_updn; [apply Inv_InvBut; auto|]. intros n. unfold core_same; nsimpl; intuition. }
+  assert (Sa : eff_static s sa) by (apply updn_static; intros n; nsimpl; auto).
+  assert (Hcura : forall x, cur sa x = cur s x).
+  { intros x. apply cur_view; unfold sa; [apply (updn_field sval)|apply (updn_field cache)]; auto. }
+  assert (Ra : Rest sa e).
+  { unfold GraphInvariant.Rest, L1, uncached_ok, GraphInvariant.needs_cur, GraphInvariant.needs_clean,
+      GraphInvariant.will_run. rewrite Hde, Ea. cbn [needs_cur_n needs_clean_n will_run_n hasrun_n]. nsimpl.
+    split; [exact R1|]. split; [exact Logic.I|]. split; [|split].
+    - intros Hn. apply (Lcur_ext p s sa e); [rewrite Ea; reflexivity|intros x v _; apply Hcura|].
+      apply R3. unfold GraphInvariant.needs_cur. rewrite Hde. exact Hn.
+    - intros (_&_&_&_&_&Hpf). congruence.
+    - intros Hw. apply R5. unfold GraphInvariant.will_run. rewrite Hde. exact Hw. }
+  unfold eff_iter. rewrite Hde. fold sa.
+  destruct (epaused (getn sa e)) eqn:Epa.
+  - (* paused: the notification is consumed and nothing else happens *)
+    set (s' := updn e (fun n => set_emissed n true) sa).
+    assert (E' : getn s' e = set_emissed (set_eflag (getn s e) false) true).
+    { unfold s'. rewrite getn_updn_same by (unfold sa; rewrite nlen_updn; auto). rewrite Ea. reflexivity. }
+    assert (IB' : InvBut e [] 0 s').
+    { apply InvBut_updn; auto. intros n. unfold core_same; nsimpl; intuition. }
+    split; [|split].
+    + apply (InvBut_close e s' IB').
+      * unfold GraphInvariant.Rest, L1, uncached_ok, GraphInvariant.needs_cur, GraphInvariant.needs_clean,
+          GraphInvariant.will_run. rewrite Hde, E'. cbn [needs_cur_n needs_clean_n will_run_n hasrun_n]. nsimpl.
+        split; [exact R1|]. split; [exact Logic.I|]. split; [|split].
+        -- intros Hn. apply (Lcur_ext p s s' e); [rewrite E'; reflexivity| |].
+           ++ intros x v _. apply cur_view; unfold s', sa; rewrite ?(updn_field sval), ?(updn_field cache); auto.
+           ++ apply R3. unfold GraphInvariant.needs_cur. rewrite Hde. exact Hn.
+        -- intros (_&_&_&_&Hm&_). discriminate.
+        -- intros Hw. apply R5. unfold GraphInvariant.will_run. rewrite Hde. exact Hw.
+      * unfold GraphInvariant.queue_ok, queue_ok_n. rewrite Hde, E'. nsimpl. intros _.
+        split; [intros _; right; reflexivity|]. intros Hpf. congruence.
+    + unfold IterPost, hasrun. rewrite E'. nsimpl. split; [exact IP1|]. intros _ _ Hm. discriminate.
+    + eapply eff_static_trans; [exact Sa|]. apply updn_static; intros n; nsimpl; auto.
+  - (* not paused: update_if_necessary, then maybe the body *)
+    assert (Haa : ealive (getn sa e) = true) by (rewrite Ea; exact Ha).
+    assert (Hpa : epoll (getn sa e) = true) by (rewrite Ea; exact Hp).
+    destruct (eff_check p e sa) as [sb need] eqn:Ec.
+    destruct (eff_check_spec e sa sb need IBa Ra He Haa Hpa Ec) as (Sb & Hrb & Hsb & Hdb & Hmb & Hno & Hyes).
+    assert (Sab : eff_static s sb) by (eapply eff_static_trans; eauto).
+    assert (Hab : ealive (getn sb e) = true) by (rewrite (static_alive s sb e Sab); exact Ha).
+    assert (Hpb : epoll (getn sb e) = true) by (rewrite (static_epoll s sb e Sab); exact Hp).
+    assert (IBb : InvBut e [] 0 sb).
+    { destruct need; [apply Hyes; auto|apply Inv_InvBut; apply Hno; auto]. }
+    assert (Heib : e < nlen sb) by (rewrite (wf_len p sb (ib_wf _ _ _ _ _ IBb)); auto).
+    assert (Hnothing : need = false -> efirst (getn sb e) = false \/ k = ERender ->
+              Inv0 sb /\ IterPost sb e).
+    { intros Hn Hf. destruct (Hno Hn) as (Ib & Hcl). split; auto.
+      unfold IterPost. split.
+      - intros Hh. exfalso. unfold hasrun, hasrun_n in Hh. rewrite Hde in Hh.
+        destruct Hf as [Hf| ->]; [|discriminate]. rewrite Hf in Hh. destruct k; discriminate.
+      - intros _ _ _ _ x v Hx Hm. eapply Hcl; eauto. }
+    destruct k as [| |imm].
+    + (* Effect::new / new_isomorphic *)
+      set (first := efirst (getn sb e)).
+      destruct (need || first) eqn:Enf.
+      * set (sc := updn e (fun n => set_efirst n false) sb).
+        assert (Ecc : getn sc e = set_efirst (getn sb e) false) by (apply getn_updn_same; auto).
+        assert (IBc : InvBut e [] 0 sc).
+        { apply InvBut_updn; auto. intros n. unfold core_same; nsimpl; intuition. }
+        assert (Sc : eff_static sb sc) by (apply updn_static; intros n; nsimpl; auto).
+        assert (Hcause : first = true \/ since (getn sc e) <> []).
+        { destruct first eqn:Ef; auto. right. rewrite orb_false_r in Enf. subst need.
+          destruct (Hyes eq_refl) as (_&_&Hsn). rewrite Ecc. nsimpl. apply Hsn.
+          rewrite (hasrun_first e EEffect b h sb Hde) by discriminate. fold first. rewrite Ef. reflexivity. }
+        destruct (eff_run_spec first e b sc IBc He Hokb) as (I' & Hc' & Hcl' & Hd' & S' & Hf'); auto;
+          try (rewrite Ecc; nsimpl; auto).
+        split; auto. split.
+        -- unfold IterPost. split; [|intros; auto].
+           intros Hh. exfalso. rewrite (hasrun_first e EEffect b h _ Hde) in Hh by discriminate.
+           rewrite Hf', Ecc in Hh. discriminate.
+        -- eapply eff_static_trans; [exact Sab|]. eapply eff_static_trans; [exact Sc|exact S'].
+      * apply orb_false_elim in Enf as [Hn Hf]. destruct (Hnothing Hn (or_introl Hf)) as (Ib & Ipb).
+        split; auto.
+    + (* RenderEffect *)
+      destruct need eqn:En.
+      * destruct (Hyes eq_refl) as (_&_&Hsn).
+        destruct (eff_run_spec false e b sb IBb He Hokb Hab Hpb Hdb) as (I' & Hc' & Hcl' & Hd' & S' & _).
+        { right. apply Hsn. unfold hasrun, hasrun_n. rewrite Hde. reflexivity. }
+        split; auto. split.
+        -- unfold IterPost. split; [intros Hh; unfold hasrun, hasrun_n in Hh; rewrite Hde in Hh; discriminate|auto].
+        -- eapply eff_static_trans; eauto.
+      * destruct (Hnothing eq_refl (or_intror eq_refl)) as (Ib & Ipb). split; auto.
+    + (* watch *)
+      set (first := efirst (getn sb e)).
+      destruct (need || first) eqn:Enf.
+      * assert (Hcause : first = true \/ since (getn sb e) <> []).
+        { destruct first eqn:Ef; auto. right. rewrite orb_false_r in Enf. subst need.
+          destruct (Hyes eq_refl) as (_&_&Hsn). apply Hsn.
+          rewrite (hasrun_first e (EWatch imm) b h sb Hde) by discriminate. fold first. rewrite Ef. reflexivity. }
+        destruct (eff_run_spec first e b sb IBb He Hokb Hab Hpb Hdb Hcause) as (I1 & Hc1 & Hcl1 & Hd1 & S1 & _).
+        set (s1 := eff_run p first e b sb) in *.
+        (* the handler, if any *)
+        assert (H2 : let s2 := if imm || negb first then eff_handler p e h s1 else s1 in
+                     Inv0 s2 /\ Lcur s2 e /\ Lclean s2 e /\ edirty (getn s2 e) = false /\ eff_static s1 s2).
+        { cbv zeta. destruct (imm || negb first).
+          - destruct (eff_handler_spec e h s1 I1 He Hokh Hc1 Hcl1 Hd1) as (A1&A2&A3&A4&A5&_).
+            split; [exact A1|]. split; [exact A2|]. split; [exact A3|]. split; [exact A4|exact A5].
+          - split; [exact I1|]. split; [exact Hc1|]. split; [exact Hcl1|]. split; [exact Hd1|apply eff_static_refl]. }
+        cbv zeta in H2. set (s2 := if imm || negb first then eff_handler p e h s1 else s1) in *.
+        destruct H2 as (I2 & Hc2 & Hcl2 & Hd2 & S2).
+        assert (S02 : eff_static s s2).
+        { eapply eff_static_trans; [exact Sab|]. eapply eff_static_trans; eauto. }
+        assert (Ha2 : ealive (getn s2 e) = true) by (rewrite (static_alive s s2 e S02); exact Ha).
+        assert (Hp2 : epoll (getn s2 e) = true) by (rewrite (static_epoll s s2 e S02); exact Hp).
+        set (s3 := updn e (fun n => set_efirst n false) s2).
+        assert (E3 : getn s3 e = set_efirst (getn s2 e) false).
+        { apply getn_updn_same. rewrite (wf_len p s2 (inv_wf _ _ _ _ I2)); auto. }
+        assert (IB3 : InvBut e [] 0 s3).
+        { apply InvBut_updn; [apply Inv_InvBut; auto|]. intros n. unfold core_same; nsimpl; intuition. }
+        assert (Hv3 : forall x, cur s3 x = cur s2 x).
+        { intros x. apply cur_view; unfold s3; [apply (updn_field sval)|apply (updn_field cache)]; auto. }
+        assert (Hc3 : Lcur s3 e).
+        { apply (Lcur_ext p s2 s3 e); [rewrite E3; reflexivity|intros x v _; apply Hv3|exact Hc2]. }
+        assert (Hcl3 : Lclean s3 e).
+        { apply (Lclean_ext p s2 s3 e); [rewrite E3; reflexivity| |exact Hcl2].
+          intros x v _ _ Hcx. unfold s3. rewrite (updn_field st); auto. }
+        split.
+        -- apply (close_after_run e s3 IB3 He).
+           ++ rewrite E3; nsimpl; auto.
+           ++ rewrite E3; nsimpl; auto.
+           ++ rewrite E3; nsimpl; auto.
+           ++ intros _; exact Hc3.
+        -- split.
+           ++ unfold IterPost. split; [|intros; auto].
+              intros Hh. exfalso. rewrite (hasrun_first e (EWatch imm) b h _ Hde) in Hh by discriminate.
+              rewrite E3 in Hh. discriminate.
+           ++ eapply eff_static_trans; [exact S02|]. apply updn_static; intros n; nsimpl; auto.
+      * apply orb_false_elim in Enf as [Hn Hf]. destruct (Hnothing Hn (or_introl Hf)) as (Ib & Ipb).
+        split; auto.
+Qed.
+
 End P.
